@@ -210,6 +210,10 @@ def r3_one_suffix_per_run(ctx):
     if not ok:
         return
     p_arg, s_arg = au.args[1], au.args[2]
+    if isinstance(p_arg, ast.Name):  # a named intermediate for `<grid>.chunk(1)`
+        d1 = local_defs(f, p_arg.id)
+        if len(d1) == 1 and d1[0][1] is not None:
+            p_arg = d1[0][1]
     pv = None
     if isinstance(p_arg, ast.Call) and isinstance(p_arg.func, ast.Attribute) and p_arg.func.attr == "chunk" and norm(p_arg.args[0] if p_arg.args else None) == "1":
         pv = dotted(p_arg.func.value)
@@ -218,7 +222,7 @@ def r3_one_suffix_per_run(ctx):
     ok = len(sdefs) == 1
     why = "suffix array not found"
     if ok:
-        txt = norm(sdefs[0])
+        txt = norm(expand(f, sdefs[0], _seen={pv} if pv else None))
         want = f"np.arange({pv}.size).reshape({pv}.shape)"
         ok = want in txt and f"dims={pv}.dims" in txt and ".chunk(1)" in txt
         why = "arange(size).reshape(shape) on the params' dims, chunk(1): a bijection run <-> suffix" if ok else f"suffix array is {txt[:120]}"
@@ -362,7 +366,7 @@ def r6_names_values_same_order(ctx):
     ok = len(cp) == 1 and dotted(cp[0].func.value) == "parameter_mode" and dotted(kw(cp[0], "dim_names")) == "dim_names"
     ctx.check(ok, d.qual + "#create-params", "values come from parameter_mode.create_params(dim_names=dim_names)" if ok else "parameter values are not produced by create_params of the same mode/mapping", where=d, node=cp[0] if cp else d.node)
     au = [c for c in calls_in(d.node) if call_name(c).endswith("apply_ufunc")]
-    kwd = kw(au[0], "kwargs") if au else None
+    kwd = expand(d, kw(au[0], "kwargs")) if au and kw(au[0], "kwargs") is not None else None
     ok = isinstance(kwd, ast.Dict) and any(isinstance(k, ast.Constant) and k.value == "dimension_names" and dotted(v) == "dim_names" for k, v in zip(kwd.keys, kwd.values))
     ctx.check(ok, d.qual + "#task-names", "the tasks receive that same mapping as dimension_names" if ok else "tasks do not receive the ordered name mapping", where=d, node=au[0] if au else d.node)
 
